@@ -37,6 +37,11 @@ func (c18) Run(t *tape.Tape, st *Stats) *Violation {
 	}
 	withICC := 1 + t.Intn(2) // 1 present, 2 absent
 	sizes := []int{1, 500, 3000, 5000, 20000, 70000, 200000}
+	if t.Chance(1, 60) {
+		// metadata regions of several hundred KiB to megabytes: read-ahead that
+		// grows with what has been consumed only shows there
+		sizes = []int{300000 + t.Intn(400000), 700000 + t.Intn(800000), 1500000 + t.Intn(2000000)}
+	}
 	var f *refmodel.File
 	switch t.Intn(3) {
 	case 0:
